@@ -47,16 +47,30 @@ package tx
 //@   ensures scans_all_outputs: result == (exists o int :: 0 <= o && o < len(tx.TxOutputsExt) && tx.TxOutputsExt[o].Bucket == txIn.Bucket && bytesEq(tx.TxOutputsExt[o].Key, txIn.Key))
 //@   loop 1 invariant none_so_far: 0 <= $i && $i <= len(tx.TxOutputsExt) && (forall o int :: 0 <= o && o < $i ==> !(tx.TxOutputsExt[o].Bucket == txIn.Bucket && bytesEq(tx.TxOutputsExt[o].Key, txIn.Key)))
 
-// The extra edges are only ever ADDED: every producer -> consumer edge survives, and
-// the pool itself is not touched. (That every reader -> overwriter pair gets its edge
-// is not proved here - the lookup table is keyed by a struct, which the memory model
-// abstracts - it is explored by the bounded pool-order check of the thorough tier.)
+// Reader-before-overwriter edges. vkOf(in): the lookup key of the version an input
+// cites; overwrites(m, w, j): pool transaction w overwrites the version its j-th key
+// input cites. Provided no two pool transactions overwrite the same version (C03: a
+// version is consumed once), every transaction that only reads a version gets an edge
+// to the transaction that overwrites it; no existing edge is lost; the pool is untouched.
+//@ macro vkOf(in) = structkey(keyVersion, in.Bucket, str(in.Key), str(in.RefTxid), in.RefOffset)
+//@ macro kin(m, t, j) = m[t].TxInputsExt[j]
+//@ macro overwrites(m, w, j) = in(m, w) && 0 <= j && j < len(m[w].TxInputsExt) && writesKeyS(m[w], kin(m, w, j))
+//@ macro oneOverwriter(m) = (forall w1 string, j1 int, w2 string, j2 int :: overwrites(m, w1, j1) && overwrites(m, w2, j2) && vkOf(kin(m, w1, j1)) == vkOf(kin(m, w2, j2)) ==> w1 == w2)
+//@ macro readerEdges(m, g, ow, r, n) = (forall i int, w string, j int :: 0 <= i && i < n && overwrites(m, w, j) && vkOf(kin(m, r, i)) == vkOf(kin(m, w, j)) && w != r && !writesKeyS(m[r], kin(m, r, i)) ==> hasEdge(g, r, w))
+//@ macro owComplete(m, ow, w, n) = (forall j int :: 0 <= j && j < n && overwrites(m, w, j) ==> in(ow, vkOf(kin(m, w, j))))
+//@ macro owSound(m, ow) = (forall v int :: in(ow, v) ==> (exists j int :: overwrites(m, ow[v], j) && vkOf(kin(m, ow[v], j)) == v))
 //@ func addReadBeforeOverwriteEdges
 //@   property C13
 //@   uses seqAppendKeeps
+//@   uses seqAppendAdds
 //@   ensures edges_only_added: forall a string, b string :: old(hasEdge(txGraph, a, b)) ==> hasEdge(txGraph, a, b)
+//@   ensures reader_before_overwriter: txMap != nil && oneOverwriter(txMap) ==> (forall r string :: in(txMap, r) ==> readerEdges(txMap, txGraph, 0, r, len(txMap[r].TxInputsExt)))
+//@   loop 1 invariant overwriters_of_visited: overwriter != nil && owSound(txMap, overwriter) && (forall w string :: in($visited, w) ==> owComplete(txMap, overwriter, w, len(txMap[w].TxInputsExt)))
+//@   loop 2 invariant overwriters_so_far: overwriter != nil && in(txMap, txID) && txMap[txID] == tx && owSound(txMap, overwriter) && owComplete(txMap, overwriter, txID, $i) && (forall w string :: in($visited#1, w) && w != txID ==> owComplete(txMap, overwriter, w, len(txMap[w].TxInputsExt)))
 //@   loop 3 invariant kept: (forall k string :: len(txGraph[k]) >= 0) && (forall a string, b string :: old(hasEdge(txGraph, a, b)) ==> hasEdge(txGraph, a, b))
+//@   loop 3 invariant readers_of_visited: overwriter != nil && owSound(txMap, overwriter) && (forall w string :: in(txMap, w) ==> owComplete(txMap, overwriter, w, len(txMap[w].TxInputsExt))) && (oneOverwriter(txMap) ==> (forall r string :: in($visited, r) ==> readerEdges(txMap, txGraph, 0, r, len(txMap[r].TxInputsExt))))
 //@   loop 4 invariant kept: (forall k string :: len(txGraph[k]) >= 0) && (forall a string, b string :: old(hasEdge(txGraph, a, b)) ==> hasEdge(txGraph, a, b))
+//@   loop 4 invariant readers_so_far: overwriter != nil && in(txMap, txID) && txMap[txID] == tx && owSound(txMap, overwriter) && (forall w string :: in(txMap, w) ==> owComplete(txMap, overwriter, w, len(txMap[w].TxInputsExt))) && (oneOverwriter(txMap) ==> readerEdges(txMap, txGraph, 0, txID, $i) && (forall r string :: in($visited#3, r) && r != txID ==> readerEdges(txMap, txGraph, 0, r, len(txMap[r].TxInputsExt))))
 
 // lastTxMap / lastOrder: results of the latest SortUnconfirmedTx / TopSortDFS call.
 //@ ghost var lastTxMap Int
